@@ -161,7 +161,18 @@ func genC15(d *RunDesc, tier string) {
 	slot := 1
 	var live []int // object slots
 	var reps []int // report slots
-	for len(ops) < length {
+	type pendingOp struct {
+		at int
+		op Op
+	}
+	var pendingReads []pendingOp
+	for len(ops) < length || len(pendingReads) > 0 {
+		// due deferred reads first
+		if len(pendingReads) > 0 && (len(ops) >= pendingReads[0].at || len(ops) >= length) {
+			ops = append(ops, pendingReads[0].op)
+			pendingReads = pendingReads[1:]
+			continue
+		}
 		c := wl.intn(100)
 		switch {
 		case c < 22 || len(live) == 0:
@@ -200,6 +211,12 @@ func genC15(d *RunDesc, tier string) {
 				op.Via = "rd"
 				f := pick(wl, faultPool[t])
 				op.Fault = &f
+			}
+			if wl.chance(1, 3) {
+				// leave the returned reader unread for a while
+				op.Defer, op.Dst = true, slot
+				pendingReads = append(pendingReads, pendingOp{at: len(ops) + wl.between(2, 7), op: Op{K: "read", IArg: slot}})
+				slot++
 			}
 			ops = append(ops, op)
 		case c < 91:
